@@ -515,6 +515,37 @@ def r10_scaling_guard(idx, r):
         r.require(any(isinstance(x, ast.Name) and x.id in taint for a in c.args[1:] for x in ast.walk(a)), "Block.adjustDensity:new-density-uses-factor", f, node=c, msg="the density written does not depend on the factor")
 
 
+def r11_in_plane_and_all_isotopes(idx, r):
+    """(a) Whether a Cartesian block lies on a symmetry line is a statement about its IN-PLANE indices (i, j): the axial index k of the complete
+    index triple must not take part (every block of the bottom layer has k == 0).  (b) An element specifier stands for ALL nuclide bases of
+    that element present in the directory - mass of an element = sum over its nuclides; restricting it to the naturally occurring isotopes
+    silently leaves out e.g. U236, and everything for elements without natural isotopes."""
+    f = idx.method("armi.reactor.blocks.CartesianBlock", "getSymmetryFactor")
+    iv = next((s_.attr for s_ in iter_stores(f.node) if isinstance(s_.node, ast.Name) and s_.value is not None and "getCompleteIndices" in norm(s_.value)), None)
+    if iv is None:
+        raise AnchorMissing("CartesianBlock.getSymmetryFactor: indices = ...getCompleteIndices()")
+    n = 0
+    for t in [x.test for x in walk_local(f.node) if isinstance(x, ast.If)]:
+        if not any(isinstance(y, ast.Name) and y.id == iv for y in ast.walk(t)):
+            continue
+        n += 1
+        whole = [y for y in ast.walk(t) if isinstance(y, ast.Compare) and any(isinstance(o, (ast.In, ast.NotIn)) for o in y.ops) and any(isinstance(c_, ast.Name) and c_.id == iv for c_ in y.comparators)]
+        whole += [y for y in ast.walk(t) if isinstance(y, ast.Call) and dotted(y.func) in ("any", "all", "min", "max", "sum") and any(isinstance(a_, ast.Name) and a_.id == iv for a_ in ast.walk(y))
+                  and not any(isinstance(s2, ast.Subscript) and isinstance(s2.slice, ast.Slice) for s2 in ast.walk(y))]
+        axial = [y for y in ast.walk(t) if isinstance(y, ast.Subscript) and norm(y.value) == iv and norm(y.slice) in ("2", "-1")]
+        r.require(not whole and not axial, f"CartesianBlock.getSymmetryFactor:test{n}:in-plane-indices-only", f, node=t,
+                  msg=f"`{norm(t)}` looks at the whole (i, j, k) triple: k == 0 (every block of the bottom layer) then counts as lying on a symmetry line and the block's volume and "
+                      "masses are divided by 2")
+    if n < 2:
+        raise AnalysisError("CartesianBlock.getSymmetryFactor: centre and edge tests not found")
+    g = idx.method(AO, "_getNuclidesFromSpecifier")
+    nat = [c for c in iter_calls(g.node) if call_attr(c) in ("getNaturalIsotopics", "getNaturalIsotopes")]
+    allb = [x for x in ast.walk(g.node) if isinstance(x, ast.Attribute) and x.attr == "nuclides" and "bySymbol" in norm(x.value)]
+    r.require(bool(allb) and not nat, "_getNuclidesFromSpecifier:element-means-all-its-nuclides", g, node=nat[0] if nat else None,
+              msg="an element specifier is expanded through the element's natural isotopics: nuclides of the element that do not occur naturally (U236, U232, every Pu isotope when "
+                  "some natural one exists ...) are left out of getMass('U') / setMass / number-density queries")
+
+
 def run(idx, chk):
     chk.explanation = (
         "C02: 24 conversion/accounting functions are typed in the free abelian group of physical units (cm, g, mol, barn, atom) plus a role generator "
@@ -542,3 +573,5 @@ def run(idx, chk):
                  necessary="mass = sum over nuclides of N x A x V / N_A at every level")
     chk.run_rule("R02.10", "Block.adjustDensity skips only densities that are zero; the skip never depends on the factor", lambda r: r10_scaling_guard(idx, r), floor=2,
                  necessary="scaling by a factor scales every listed nuclide, including factor 0")
+    chk.run_rule("R02.11", "Cartesian symmetry-line tests look at (i, j) only; an element specifier stands for all nuclide bases of the element", lambda r: r11_in_plane_and_all_isotopes(idx, r), floor=3,
+                 necessary="volumes are divided by the symmetry factor of the IN-PLANE position; mass of an element is the sum over all its nuclides")
